@@ -11,6 +11,7 @@ Definition wj (f : nat) (j : job) : bool := match j with JSync _ _ (Some f') => 
 Definition wf (f : nat) (fr : frame) : bool :=
   match fr with
   | FUse f' _ | FAwRet f' | FPark f' | FDropRet f' _ | FFS1 f' => bool_decide (f' = f)
+  | FY _ y _ _ => bool_decide (y.(y_f) = f)          (* the SyncFuture owns its SchedulerFuture until that returns Ready or is dropped *)
   | FS1 _ (Some f') | FClosure _ (Some f') | FSDpush _ (Some f') | FSBreg _ (Some f') | FSBpush _ (Some f') => bool_decide (f' = f)
   | FJob j _ _ | FDRrequeue j | FDQrequeue _ _ j | FROpend j | FROcheck j | FROpark j | FD1 j => wj f j
   | _ => false
@@ -27,7 +28,7 @@ Definition pollfam (fr : frame) : option nat :=
   | _ => None
   end.
 Definition iscont (f : nat) (fr : frame) : bool :=
-  match fr with FAwRet f' | FDropRet f' _ => bool_decide (f' = f) | _ => false end.
+  match fr with FAwRet f' | FDropRet f' _ => bool_decide (f' = f) | FY YPsfret y _ _ => bool_decide (y.(y_f) = f) | _ => false end.
 Definition adjok (x : frame) (r : list frame) : bool :=
   match pollfam x with Some f => match r with y :: _ => iscont f y | [] => false end | None => true end.
 Fixpoint pollall (st : list frame) : bool := match st with [] => true | x :: r => adjok x r && pollall r end.
@@ -110,6 +111,7 @@ Section Pres.
            pose proof (np_upd (wf f) s s' a _ _ Hst ltac:(solve_stacks)) as Hu;
            unfold tot in *; (let n := fresh "cnt" in set (n := np (wf f) s') in *; clearbody n) end.
     all: cbn [cntf wf wj ret_ready ret_pending] in Hu; rewrite ?cntf_app, ?cntf_opt_wake, ?cntf_wake_frames in Hu by done; cbn [cntf wf wj ret_ready ret_pending] in Hu.
+    all: cbn [y_f] in *.
     all: try (match goal with E : jobs _ = _ :: _ |- _ => rewrite E in * end).
     all: cbn -[cntj length getf setf "++" nres]; rewrite ?jobs_setf0, ?log_setf; cbn -[cntj length getf setf "++" nres]; rewrite ?cntj_app; cbn [cntj wj nres app] in *.
     all: repeat match goal with H : context [wj ?f ?j] |- _ => destruct (wj f j) end.
@@ -136,7 +138,7 @@ Section Pres.
               | rewrite ?getf_addlog' in Hr; first [specialize (I2' Hr)|idtac] ] end).
     all: try (repeat case_bool_decide; simplify_eq; lia).
     all: try (match goal with Hnc : nocont ?r, H : match ?r with [] => false | _ :: _ => _ end = true |- _ =>
-              exfalso; destruct r as [|[] ?]; try done; cbn in H; discriminate end).
+              exfalso; destruct r as [|[] ?]; try done; try (match goal with pc : ypc |- _ => destruct pc end; try done); cbn in H; discriminate end).
     all: try (match type of Hr with res (getf ?s1 ?f1) = _ => rewrite (getf_futs s1 s f1 eq_refl) in Hr end).
     all: try (pose proof (I2 _ Hr) as I2f).
     all: try (repeat case_bool_decide; simplify_eq; first [lia|congruence]).
@@ -173,7 +175,7 @@ Proof.
   { intros f fr' Hin Hw Hr. pose proof (tot_pos s a _ fr' f Hst Hin Hw). rewrite (I2 f Hr) in H. lia. }
   assert (Hcont : forall f, pollfam fr = Some f -> (getf s f).(res) <> FReturned).
   { intros f Hf. cbn in Hp. apply andb_true_iff in Hp as [Hp _]. unfold adjok in Hp. rewrite Hf in Hp.
-    destruct rest as [|y r]; [done|]. apply (Hret f y); [right; left|]. destruct y; try done. }
+    destruct rest as [|y r]; [done|]. apply (Hret f y); [right; left|]. destruct y; try done. by destruct pc. }
   destruct fr; try done.
   - (* FD1 *) destruct (t_desync (ft_base T) (qs s)) as [q p] eqn:Ep. cbn. destruct p; try done.
     apply (oc_desync _ HT) in Ep as [_ Hq]. by destruct (io_nopanic _ HO); apply Hq.
